@@ -79,6 +79,125 @@ def spec_to_code(chk, cfgs, make_reals, relax=(), neg_cfgs=None, tag='', check_o
     return pos
 
 
+def spec_to_code_sim(chk, cfgs, make_reals, relax=(), num=100, num_neg=8, seed=0, tag='', max_neg_per_cfg=120, sel_hook=None):
+    """Long horizons (T beyond what TLC can enumerate): TLC -simulate walks the specification at random.
+    * every complete strict behaviour of the walks must be feasible in the implementation, with the same value;
+    * the implementation's optimum is at least the best sampled value;
+    * near-miss successors seen along relaxed walks must have no feasible completion.  The strict behaviours are only
+      sampled here, so a near-miss that the implementation completes is not yet a violation (after projection it may
+      coincide with a strict behaviour): the completion the implementation found is recorded as a trace and the TRACE
+      specification decides -- rejected => the implementation admits a point the specification forbids (violation, the
+      failed guard is named); accepted => coincidence, counted."""
+    import numpy as np
+    from harness.realise import eao, quiet
+    T = max(c['T'] for c in cfgs)
+    pos = P.enumerate_family(cfgs, name='MCsimpos', simulate=num, depth=T + 4, seed=seed + 1, workers=1)
+    chk.add_tlc(pos['stats'])
+    if pos['stats']['violated']:
+        chk.violation(dict(check='spec_invariant', invariant=pos['stats']['violated'], family=tag),
+                      'TLC (simulation): invariant %s violated on the specification itself' % pos['stats']['violated'], pos['stats'].get('tlc_tail'))
+        return
+    behs = {}
+    for cid, v in pos['behs'].items():
+        seen = {}
+        for b in v:
+            if not b['fault']:
+                seen[repr((b['frac'], b['steps']))] = b
+        behs[cid] = list(seen.values())
+    negb = {}
+    if relax and num_neg:
+        neg = P.enumerate_family(cfgs, relax=relax, name='MCsimneg', simulate=num_neg, depth=T + 4, seed=seed + 2, workers=1)
+        chk.add_tlc(neg['stats'])
+        rnd = random.Random(seed)
+        for cid, v in neg['behs'].items():
+            seen = {}
+            for b in v:
+                if b['fault']:
+                    seen[repr((b['frac'], b['steps'], b['fault']))] = b
+            lst = list(seen.values())
+            # prefer the late near-misses (the early ones are what the exhaustive short-horizon families already cover)
+            lst.sort(key=lambda b: -b['at'])
+            late = lst[:max_neg_per_cfg // 2]
+            rest = lst[max_neg_per_cfg // 2:]
+            rnd.shuffle(rest)
+            negb[cid] = late + rest[:max_neg_per_cfg - len(late)]
+    chk.cnt['sim_strict_behaviours'] += sum(len(v) for v in behs.values())
+    chk.cnt['sim_near_miss_prefixes'] += sum(len(v) for v in negb.values())
+    pending = []      # (trace, sel, why, replay) of completed near-misses, decided by the trace specification below
+    for cfg in cfgs:
+        reals = make_reals(cfg)
+        if not isinstance(reals, (list, tuple)):
+            reals = [reals]
+        for real in reals:
+            sel0 = dict(family=tag)
+            sel0.update(cfg_features(cfg))
+            sel0.update(calendar=real.calendar, mtu=real.mtu, route='mono')
+            if sel_hook:
+                sel_hook(sel0, cfg)
+            try:
+                cf = P.Conformer(real)
+            except MachineryError:
+                raise
+            except Exception as e:
+                chk.violation(dict(sel0, check='replay_setup_raises', error=type(e).__name__), '%s: %s' % (type(e).__name__, e), dict(cfg=cfg, realisation=real_desc(real)))
+                continue
+            best = None
+            for b in behs.get(cfg['id'], []):
+                chk.cnt['sim_pos'] += 1
+                chk.cnt['eval_replayed'] += 1
+                why = cf.positive(b)
+                if why:
+                    chk.violation(dict(sel0, check='replay_positive', fault=''), why, dict(cfg=cfg, realisation=real_desc(real), behaviour=b))
+                best = b['val'] if best is None or b['val'] > best else best
+            if best is not None:
+                chk.nontrivial(('simcfg', tag, cfg['id']))
+                st, val, x = cf.optimum()
+                lat = best / cf.scale
+                if st == 'infeasible' or (st == 'optimal' and val < lat - 1e-6 * max(1, abs(lat))):
+                    chk.violation(dict(sel0, check='replay_optimum', fault=''), 'implementation optimum (%s, %s) below a behaviour of the specification worth %.9g' % (st, val, lat),
+                                  dict(cfg=cfg, realisation=real_desc(real)))
+                else:
+                    chk.cnt['sim_opt_at_least_sampled'] += 1
+            keys = cf.prefix_keys(behs.get(cfg['id'], []))
+            for b in negb.get(cfg['id'], []):
+                verdict, why = cf.negative(b, keys)
+                chk.cnt['eval_replayed'] += 1
+                chk.cnt['sim_neg_' + verdict] += 1
+                chk.cnt['fault_' + b['fault']] += 1
+                if verdict == 'ACCEPTED':
+                    x = np.asarray(cf.last_completion, float)
+                    try:
+                        with quiet():
+                            res = eao.optimization.Results(value=float(-cf.prob.c @ x), x=x, duals=None)
+                            out = eao.io.extract_output(real.portfolio, cf.op, res)
+                        tr = REC.make_trace(real, cf.op, res, out, K=1000, tol=3, chk=(), tid=len(pending) + 1)
+                    except MachineryError:
+                        raise
+                    pending.append((tr, dict(sel0, check='replay_negative', fault=b['fault']), why, dict(cfg=cfg, realisation=real_desc(real), behaviour=b)))
+    if pending:
+        verdicts, st = REC.validate_traces([p[0] for p in pending])
+        chk.add_tlc(st)
+        for (tr, sel, why, rep), (line, v) in zip(pending, verdicts):
+            if v == 'accepted':
+                chk.cnt['sim_neg_coincides_with_strict_behaviour'] += 1
+            else:
+                chk.violation(dict(sel, guard=v.split('@')[0]), why + '; the completion found by the implementation is rejected by the specification (%s)' % v, rep)
+    return behs
+
+
+def long_horizon(chk, tier, seed, items, relax, make_real=None, T_quick=10, T_thorough=16):
+    """the simulated replay (spec_to_code_sim) over families rebuilt with a long horizon; items = [(tag, family function taking T)]"""
+    th = tier == 'thorough'
+    T = T_thorough if th else T_quick
+    for tag, f in items:
+        cfgs = f(T=T)
+        k = max(1, len(cfgs) // (24 if th else 6))
+        cfgs = cfgs[seed % k::k]
+        spec_to_code_sim(chk, cfgs, make_real or (lambda c: R.Real(c)), relax=relax, num=240 if th else 60, num_neg=12 if th else 4, seed=seed,
+                         tag=tag + '_T%d_sim' % T)
+    chk.assumptions.append('long horizons (T = %d): behaviours sampled by TLC -simulate, not enumerated; the optimum is only bounded from below there' % T)
+
+
 def code_to_spec(chk, cfgs, make_reals, tag='', solvers=('SCIPY', None), split=None, chk_fields=('level', 'chdis'),
                  expect_feasible=None, corrupt=True, K=1000, tol=3, sel_hook=None):
     """run the real pipeline for every cfg x realisation x solver, validate the recorded traces with TLC"""
